@@ -10,7 +10,7 @@
 (* printed as MISMATCH (or KNOWN <finding>) and counted; the trace is     *)
 (* accepted iff every line was consumed and nothing was counted.          *)
 (***************************************************************************)
-EXTENDS Bytes, UriCanon, Json, IOUtils
+EXTENDS Bytes, UriCanon, Headers, Iso8601, KeyTerms, Json, IOUtils
 
 Rec == ndJsonDeserialize(IOEnv.TRACE)
 
@@ -47,8 +47,49 @@ KnownElem(e) ==
     /\ IF EscapesOk(e.el) THEN e.res = "ok" /\ e.out = NormElem(e.el, TRUE)
        ELSE IsErr(e, "InvalidURIPath", 400)
 
+AcceptHval(e) == e.res = "ok" /\ e.out = NormValue(e.v)
+
+\* C16: timestamp parsing observed through the authenticator the library builds
+\* e.inst = <<days from CE, second of day, nanosecond>> of the UTC instant the library derived,
+\* e.civil = its <<y, m, d, hh, mi, ss>>, e.stsline = the timestamp line of the string-to-sign
+TsInstOk(e, inst) ==
+    /\ e.inst = inst
+    /\ e.civil = Fields(inst)             \* Civil.tla agrees with the library's calendar
+    /\ e.stsline = Compact(inst)
+    /\ e.scopedate = ScopeDate(inst)
+AcceptTs(e) ==
+    LET r == Parse(e.s) IN
+    CASE r.class = "accept"   -> e.res = "ok" /\ TsInstOk(e, r.inst)
+      [] r.class = "reject"   -> IsErr(e, "IncompleteSignature", 400)
+      [] r.class = "dontcare" -> \/ IsErr(e, "IncompleteSignature", 400)
+                                 \/ e.res = "ok" /\ (r.hasInst => TsInstOk(e, r.inst))
+
+\* C06: e.secret, e.cap; for cap = 44 and accepted secrets the read-back secret, the four
+\* harness-evaluated HMAC steps (e.oracle) and the library's keys along every method path
+OracleWired(e) ==
+    LET o == e.oracle IN
+    /\ Len(o) = 4
+    /\ o[1].key = bAWS4 \o e.secret /\ o[1].msg = DateYMD(e.date[1], e.date[2], e.date[3])
+    /\ o[2].key = o[1].out /\ o[2].msg = e.region
+    /\ o[3].key = o[2].out /\ o[3].msg = e.service
+    /\ o[4].key = o[3].out /\ o[4].msg = bAws4Request
+AcceptKey(e) ==
+    IF ~FromStrAccepts(e.secret, e.cap) THEN e.res = "err" /\ e.kind = "KeyTooLong"
+    ELSE /\ e.res = "ok"
+         /\ e.cap = 44 =>
+              /\ e.readback = e.secret
+              /\ OracleWired(e)
+              /\ \A i \in 1..Len(e.kdate)    : e.kdate[i]    = e.oracle[1].out
+              /\ \A i \in 1..Len(e.kregion)  : e.kregion[i]  = e.oracle[2].out
+              /\ \A i \in 1..Len(e.kservice) : e.kservice[i] = e.oracle[3].out
+              /\ \A i \in 1..Len(e.ksigning) : e.ksigning[i] = e.oracle[4].out
+              /\ Len(e.kdate) = 1 /\ Len(e.kregion) = 2 /\ Len(e.kservice) = 3 /\ Len(e.ksigning) = 4
+
 Accept(e) ==
     CASE e.op = "path"  -> AcceptPath(e)
+      [] e.op = "hval"  -> AcceptHval(e)
+      [] e.op = "ts"    -> AcceptTs(e)
+      [] e.op = "key"   -> AcceptKey(e)
       [] e.op = "query" -> AcceptQuery(e)
       [] e.op = "elem"  -> AcceptElem(e)
       [] OTHER -> FALSE
@@ -63,6 +104,9 @@ Expected(e) ==
     CASE e.op = "path"  -> CanonPath(e.p, e.s3)
       [] e.op = "query" -> CanonQuery(e.q)
       [] e.op = "elem"  -> IF EscapesOk(e.el) THEN NormElem(e.el, e.plus) ELSE "error"
+      [] e.op = "hval"  -> NormValue(e.v)
+      [] e.op = "ts"    -> Parse(e.s)
+      [] e.op = "key"   -> [accepts |-> FromStrAccepts(e.secret, e.cap)]
       [] OTHER -> "?"
 
 Count(reg) == TLCSet(reg, TLCGet(reg) + 1)
